@@ -244,16 +244,44 @@ func vC16KFRun(t *testing.T, st *verifkit.Stats, sig, what string, zeroUsers boo
 	}
 }
 
-func TestVerifC16KFFirstAdminExtraStatements(t *testing.T) {
-	st := verifkit.For("C16", "TestVerifC16KFFirstAdminExtraStatements", "directed: multi-statement requests at zero users whose first statement creates an administrator")
+// TestVerifC16FirstAdminOnly is the directed regression for the repaired defect
+// first-admin-request-carries-extra-statements: with zero users a request is authorized only if it is
+// exactly one CREATE USER ... WITH ALL PRIVILEGES statement.
+func TestVerifC16FirstAdminOnly(t *testing.T) {
+	st := verifkit.For("C16", "TestVerifC16FirstAdminOnly", "directed: requests at zero users (single bootstrap statement, bootstrap statement followed by others, non-bootstrap statements); one case per request")
 	defer st.Flush()
-	vC16KFRun(t, st, vSigZeroUsersMulti,
-		"with zero users only the first statement of a request is inspected: CREATE USER ... WITH ALL PRIVILEGES; <anything> is authorized without credentials",
-		true, []vC16KFCase{
-			{Text: "CREATE USER a WITH PASSWORD 'x' WITH ALL PRIVILEGES; DROP DATABASE db0"},
-			{Text: "CREATE USER a WITH PASSWORD 'x' WITH ALL PRIVILEGES; SELECT * FROM db1..m", Def: "db0"},
-			{Text: "CREATE USER a WITH PASSWORD 'x' WITH ALL PRIVILEGES; CREATE USER b WITH PASSWORD 'y' WITH ALL PRIVILEGES; DROP SERIES FROM m", Def: "db0"},
-		})
+	for _, c := range []struct {
+		text string
+		want bool
+	}{
+		{"CREATE USER a WITH PASSWORD 'x' WITH ALL PRIVILEGES", true},
+		{"CREATE USER a WITH PASSWORD 'x'", false},
+		{"SHOW DATABASES", false},
+		{"CREATE USER a WITH PASSWORD 'x' WITH ALL PRIVILEGES; DROP DATABASE db0", false},
+		{"CREATE USER a WITH PASSWORD 'x' WITH ALL PRIVILEGES; SELECT * FROM db1..m", false},
+		{"CREATE USER a WITH PASSWORD 'x' WITH ALL PRIVILEGES; CREATE USER b WITH PASSWORD 'y' WITH ALL PRIVILEGES; DROP SERIES FROM m", false},
+		{"SHOW DATABASES; CREATE USER a WITH PASSWORD 'x' WITH ALL PRIVILEGES", false},
+	} {
+		b := vC16NewBed()
+		q, err := influxql.ParseQuery(c.text)
+		if err != nil {
+			t.Fatalf("%s %q: %v", verifkit.Sig("harness-unparseable-statement"), c.text, err)
+		}
+		if want, _ := b.m.allowsQuery("", q.Statements, "db0"); want != c.want {
+			t.Fatalf("%s model verdict for %q is %v", verifkit.Sig("harness-kf-case-not-refused"), c.text, want)
+		}
+		_, err = b.qa.AuthorizeQuery(nil, q, "db0")
+		if got := err == nil; got != c.want {
+			sig := vSigZeroUsersMulti
+			if c.want {
+				sig = "authorized-query-refused"
+			}
+			fmt.Printf("VERIF-CASE %s\n", c.text)
+			t.Fatalf("%s zero users: AuthorizeQuery(nil, %q) allowed=%v, model %v", verifkit.Sig(sig), c.text, got, c.want)
+		}
+		st.Case(true, c.text, fmt.Sprintf("allowed:%v", c.want))
+		st.Sample(fmt.Sprintf("zero users: %q allowed=%v", c.text, c.want))
+	}
 }
 
 func TestVerifC16KFShowCardinalityOn(t *testing.T) {
